@@ -11,8 +11,11 @@ import (
 	"go/ast"
 	"go/token"
 	"go/types"
+	"os"
 	"sort"
+	"strconv"
 	"strings"
+	"time"
 )
 
 // Fact sets: atom key -> polarity.
@@ -147,6 +150,37 @@ func setEq(a, b map[string]bool) bool {
 	return true
 }
 
+// hKey renders a state canonically (memoisation of inlined callees).
+func hKey(s *HState) string {
+	if s.Dead {
+		return "dead"
+	}
+	var b strings.Builder
+	var ps []string
+	for _, p := range s.Paths {
+		ps = append(ps, p.key())
+	}
+	sort.Strings(ps)
+	b.WriteString(strings.Join(ps, "|"))
+	for _, set := range []map[string]bool{s.Locks, s.MayL, s.Must, s.May} {
+		var ks []string
+		for k := range set {
+			ks = append(ks, k)
+		}
+		sort.Strings(ks)
+		b.WriteString("\x00")
+		b.WriteString(strings.Join(ks, ","))
+	}
+	var ds []string
+	for o, n := range s.Defs {
+		ds = append(ds, fmt.Sprintf("%p=%p", o, n))
+	}
+	sort.Strings(ds)
+	b.WriteString("\x00")
+	b.WriteString(strings.Join(ds, ","))
+	return b.String()
+}
+
 func hEqual(a, b *HState) bool {
 	if a.Dead != b.Dead {
 		return false
@@ -192,6 +226,23 @@ type Site struct {
 	Root   *FuncInfo // enclosing declaration
 	St     *HState
 	Ctx    []string // chain of wrapper calls through which a literal was entered (outermost first)
+	// Inl is non-empty for a site inside a callee analysed in place: the chain of calls
+	// (outermost first) leading from Root to the function that contains the node.
+	Inl []*InlFrame
+	Res *resolver // renders expressions at this site in the frame of Root
+	// Virtual: not a call written in the source but the call a wrapper makes to a declared
+	// function that was handed to it as its callback (forEachChildNode(notifyDelete)); Call is
+	// synthetic (Fun = the function reference, no arguments), St the state inside the wrapper.
+	Virtual bool
+	// NonBlocking: a channel operation (or the select itself) of a select statement that has
+	// a default clause: it never waits.
+	NonBlocking bool
+}
+
+// InlFrame is one step of in-place analysis: Call (in the outer frame) enters Decl.
+type InlFrame struct {
+	Call *ast.CallExpr
+	Decl *ast.FuncDecl
 }
 
 // SiteDB holds the results for a set of functions.
@@ -203,10 +254,16 @@ type SiteDB struct {
 	Wrappers map[*types.Func]*Wrapper
 	wlocks   map[*types.Func][]wlock // lock tokens a wrapper holds around its callback
 	atomObjs map[string][]types.Object
+	weights  map[*FuncInfo]int
+	noInline bool
 	// entry contexts (interprocedural)
 	EntryMust map[*types.Func]map[string]bool
 	EntryMay  map[*types.Func]map[string]bool
 	Exits     map[*FuncInfo][]*ExitRec
+	Virtual   map[*FuncInfo][]*Site    // callbacks that are declared functions (see Site.Virtual)
+	DeepExits map[*FuncInfo][]*ExitRec // exits of helpers analysed in place, keyed by the root function
+	Deep      map[*FuncInfo][]*Site // call sites inside callees analysed in place, keyed by the root function
+	DeepFields []*FieldAccess       // field accesses inside callees analysed in place (Root = the root function)
 	Fields    []*FieldAccess
 	Exprs     map[ast.Node]*HState // state before index / slice expressions
 	Blocking  []*Site // channel operations, select statements, go statements (Callee: "<-chan", "chan<-", "select", "go")
@@ -226,6 +283,7 @@ type ExitRec struct {
 	Ret *ast.ReturnStmt
 	Fn  ast.Node
 	St  *HState
+	Inl []*InlFrame // non-empty: an exit of a helper analysed in place (DeepExits only)
 }
 
 type FieldAccess struct {
@@ -234,6 +292,7 @@ type FieldAccess struct {
 	Key   string
 	Write bool
 	Root  *FuncInfo
+	Inl   []*InlFrame
 	Fn    ast.Node
 	St    *HState
 }
@@ -288,6 +347,12 @@ type resolver struct {
 	defs  map[types.Object]ast.Expr // local var -> its only definition (nil entry = several)
 	subst map[types.Object]string   // wrapper receiver/param substitution
 	uniq  map[types.Object]string   // disambiguated names of locals that share a name (err#2)
+	count map[types.Object]int      // number of assignments (address-taking counts double)
+	// Instantiation of a callee analysed in place: its receiver and parameters are rendered as
+	// the caller's argument expressions, its own locals carry the suffix ~frame.
+	frame     string
+	lo, hi    token.Pos
+	substObjs map[types.Object][]types.Object // parameter -> variables of the argument expression (caller frames)
 }
 
 func newResolver(l *Loaded, info *types.Info, fn ast.Node) *resolver {
@@ -346,6 +411,7 @@ func newResolver(l *Loaded, info *types.Info, fn ast.Node) *resolver {
 			delete(r.defs, obj)
 		}
 	}
+	r.count = count
 	// Distinct local objects that share a name (err := ... in several scopes) get an ordinal.
 	r.uniq = map[types.Object]string{}
 	byName := map[string][]types.Object{}
@@ -375,6 +441,80 @@ func newResolver(l *Loaded, info *types.Info, fn ast.Node) *resolver {
 
 func (r *resolver) str(e ast.Expr) string { return r.strDepth(e, 0) }
 
+// instantiate builds the resolver for the body of decl analysed in place at call: base is the
+// plain resolver of decl, r the resolver of the calling context.
+func (r *resolver) instantiate(call *ast.CallExpr, decl *ast.FuncDecl, base *resolver) *resolver {
+	n := &resolver{l: base.l, info: base.info, defs: base.defs, uniq: base.uniq, count: base.count,
+		subst: map[types.Object]string{}, substObjs: map[types.Object][]types.Object{},
+		frame: decl.Name.Name, lo: decl.Pos(), hi: decl.End()}
+	bind := func(nm *ast.Ident, arg ast.Expr) {
+		obj := base.info.Defs[nm]
+		if obj == nil || nm.Name == "_" || base.count[obj] > 0 {
+			return // reassigned inside the callee: stays a local of the callee
+		}
+		n.subst[obj] = r.str(arg)
+		n.substObjs[obj] = r.objsOf(arg)
+	}
+	if decl.Recv != nil && len(decl.Recv.List) == 1 && len(decl.Recv.List[0].Names) == 1 {
+		if sel, ok := unparen(call.Fun).(*ast.SelectorExpr); ok {
+			bind(decl.Recv.List[0].Names[0], sel.X)
+		}
+	}
+	idx := 0
+	for _, fld := range decl.Type.Params.List {
+		_, variadic := fld.Type.(*ast.Ellipsis)
+		for _, nm := range fld.Names {
+			if idx < len(call.Args) && !variadic {
+				bind(nm, call.Args[idx])
+			}
+			idx++
+		}
+		if len(fld.Names) == 0 {
+			idx++
+		}
+	}
+	return n
+}
+
+// objsOf lists the variables an expression depends on, in terms of the outermost frames:
+// substituted parameters are replaced by the variables of their argument expressions.
+func (r *resolver) objsOf(e ast.Node) []types.Object {
+	var out []types.Object
+	for _, o := range objsIn(r.info, e) {
+		if so, ok := r.substObjs[o]; ok {
+			out = append(out, so...)
+		} else {
+			out = append(out, o)
+		}
+	}
+	return out
+}
+
+// nameOf renders a variable the way str does, without following aliases.
+func (r *resolver) nameOf(obj types.Object) string {
+	if obj == nil {
+		return ""
+	}
+	if s, ok := r.subst[obj]; ok {
+		return s
+	}
+	name := obj.Name()
+	if u, ok := r.uniq[obj]; ok {
+		name = u
+	}
+	if r.frame != "" && obj.Pos() >= r.lo && obj.Pos() < r.hi {
+		if _, isVar := obj.(*types.Var); isVar {
+			name += "~" + r.frame
+		}
+	}
+	return name
+}
+
+// local reports whether obj is declared inside the callee this resolver instantiates.
+func (r *resolver) local(obj types.Object) bool {
+	return r.frame != "" && obj != nil && obj.Pos() >= r.lo && obj.Pos() < r.hi
+}
+
 func (r *resolver) strDepth(e ast.Expr, depth int) string {
 	e = unparen(e)
 	switch v := e.(type) {
@@ -389,8 +529,8 @@ func (r *resolver) strDepth(e ast.Expr, depth int) string {
 					return r.strDepth(d, depth+1)
 				}
 			}
-			if u, ok := r.uniq[obj]; ok {
-				return u
+			if _, isVar := obj.(*types.Var); isVar {
+				return r.nameOf(obj)
 			}
 		}
 		return v.Name
@@ -416,6 +556,22 @@ func (r *resolver) strDepth(e ast.Expr, depth int) string {
 		return r.strDepth(v.X, depth) + " " + v.Op.String() + " " + r.strDepth(v.Y, depth)
 	case *ast.IndexExpr:
 		return r.strDepth(v.X, depth) + "[" + r.strDepth(v.Index, depth) + "]"
+	case *ast.SliceExpr:
+		part := func(x ast.Expr) string {
+			if x == nil {
+				return ""
+			}
+			return r.strDepth(x, depth)
+		}
+		out := r.strDepth(v.X, depth) + "[" + part(v.Low) + ":" + part(v.High)
+		if v.Slice3 {
+			out += ":" + part(v.Max)
+		}
+		return out + "]"
+	case *ast.TypeAssertExpr:
+		if v.Type != nil {
+			return r.strDepth(v.X, depth) + ".(" + r.l.str(v.Type) + ")"
+		}
 	}
 	return r.l.str(e)
 }
@@ -513,19 +669,37 @@ func buildSiteDB(l *Loaded, pkgs ...string) *SiteDB {
 		db.Calls = map[string][]*Site{}
 		db.ByFunc = map[*FuncInfo][]*Site{}
 		db.Exits = map[*FuncInfo][]*ExitRec{}
+		db.Deep = map[*FuncInfo][]*Site{}
+		db.Virtual = map[*FuncInfo][]*Site{}
+		db.DeepExits = map[*FuncInfo][]*ExitRec{}
+		db.DeepFields = nil
 		db.Fields = nil
 		db.Blocking = nil
 		db.LockAcqs = nil
 		db.Exprs = map[ast.Node]*HState{}
 		for _, fi := range funcs {
 			if fi.Decl.Body != nil {
+				t0 := time.Now()
+				if tf := os.Getenv("P9_TRACE"); tf != "" {
+					if f, err := os.OpenFile(tf, os.O_APPEND|os.O_CREATE|os.O_WRONLY, 0644); err == nil {
+						fmt.Fprintf(f, "start %s\n", fi.Key)
+						f.Close()
+					}
+				}
 				db.analyse(fi)
+				if tf := os.Getenv("P9_TRACE"); tf != "" && time.Since(t0) > 300*time.Millisecond {
+					if f, err := os.OpenFile(tf, os.O_APPEND|os.O_CREATE|os.O_WRONLY, 0644); err == nil {
+						fmt.Fprintf(f, "slow %s: %v\n", fi.Key, time.Since(t0))
+						f.Close()
+					}
+				}
 			}
 		}
 	}
+	db.noInline = true
 	runAll()
 	for _, fi := range funcs {
-		for _, s := range db.ByFunc[fi] {
+		for _, s := range append(append([]*Site{}, db.ByFunc[fi]...), db.Virtual[fi]...) {
 			if s.Call == nil {
 				continue
 			}
@@ -534,7 +708,10 @@ func buildSiteDB(l *Loaded, pkgs ...string) *SiteDB {
 			}
 		}
 	}
-	for iter := 0; iter < 10; iter++ {
+	// The contexts are first iterated without in-place analysis of callees (cheap), then the
+	// iteration continues with it until nothing changes any more.
+	db.noInline = true
+	for iter := 0; iter < 20; iter++ {
 		runAll()
 		newMust := map[*types.Func]map[string]bool{}
 		newMay := map[*types.Func]map[string]bool{}
@@ -542,7 +719,7 @@ func buildSiteDB(l *Loaded, pkgs ...string) *SiteDB {
 			newMust[f] = map[string]bool{top: true}
 		}
 		for _, fi := range funcs {
-			for _, s := range db.ByFunc[fi] {
+			for _, s := range append(append([]*Site{}, db.ByFunc[fi]...), db.Virtual[fi]...) {
 				if s.Call == nil || s.St.Dead {
 					continue
 				}
@@ -575,9 +752,14 @@ func buildSiteDB(l *Loaded, pkgs ...string) *SiteDB {
 		}
 		db.EntryMust, db.EntryMay = newMust, newMay
 		if !changed {
+			if db.noInline {
+				db.noInline = false
+				continue
+			}
 			break
 		}
 	}
+	db.noInline = false
 	// Whatever is still unknown is only reachable from itself: nothing is known to be held.
 	stripped := false
 	for f, m := range db.EntryMust {
@@ -591,10 +773,125 @@ func buildSiteDB(l *Loaded, pkgs ...string) *SiteDB {
 	}
 	_ = stripped
 	runAll()
+	if want := os.Getenv("P9_DUMP"); want != "" {
+		// debugging aid: P9_DUMP=<func key>[@file] lists the recorded sites of one function
+		out := os.Stderr
+		if i := strings.Index(want, "@"); i >= 0 {
+			if f, err := os.Create(want[i+1:]); err == nil {
+				out = f
+				defer f.Close()
+			}
+			want = want[:i]
+		}
+		for _, fi := range funcs {
+			if fi.Key != want {
+				continue
+			}
+			for _, st := range append(append([]*Site{}, db.ByFunc[fi]...), db.Deep[fi]...) {
+				fmt.Fprintf(out, "%s %s inl=%d\n  facts %s\n  locks %s must %s\n", l.Fset.Position(st.Call.Pos()), st.Callee, len(st.Inl), describePaths(st.St), describeSet(st.St.Locks), describeSet(st.St.Must))
+			}
+			for _, ex := range db.Exits[fi] {
+				pos := fi.Decl.End()
+				if ex.Ret != nil {
+					pos = ex.Ret.Pos()
+				}
+				fmt.Fprintf(out, "EXIT %s\n  facts %s\n  must %s\n", l.Fset.Position(pos), describePaths(ex.St), describeSet(ex.St.Must))
+			}
+		}
+	}
 	return db
 }
 
 type heldSets struct{ must, may map[string]bool }
+
+// maxInlineDepth bounds the in-place analysis of callees (helpers calling helpers).
+var maxInlineDepth = func() int {
+	if v := os.Getenv("P9_INLINE_DEPTH"); v != "" {
+		n, _ := strconv.Atoi(v)
+		return n
+	}
+	return 2
+}()
+
+// inlinePolicy decides which calls are analysed in place: statically resolved calls to
+// functions of the same package that have a body, are not callback wrappers (those are
+// handled by literal inlining), are not already being analysed further up (recursion) and
+// stay within the depth and size bounds.
+func inlinePolicy[S any](db *SiteDB, fi *FuncInfo) func(*ast.CallExpr, *FlowCtx[S]) *ast.FuncDecl {
+	info := fi.Pkg.TypesInfo
+	return func(call *ast.CallExpr, fc *FlowCtx[S]) *ast.FuncDecl {
+		if db.noInline {
+			return nil
+		}
+		tf := db.L.FuncOf(callee(info, call))
+		if tf == nil || tf.Decl.Body == nil || tf.Pkg != fi.Pkg || tf == fi || db.Wrappers[tf.Obj] != nil {
+			return nil
+		}
+		depth := 0
+		for c := fc; c != nil; c = c.Parent {
+			if c.Inl != nil {
+				depth++
+				if c.Inl == tf.Decl {
+					return nil // recursion
+				}
+			}
+		}
+		if depth >= maxInlineDepth || db.weight(tf) > maxInlineWeight {
+			return nil
+		}
+		return tf.Decl
+	}
+}
+
+// inlinePathBudget: see InlDone.
+const inlinePathBudget = 4
+
+// maxInlineWeight bounds the size (statements, callees of callees included) of a callee that
+// is analysed in place; larger functions are analysed on their own only.
+var maxInlineWeight = func() int {
+	if v := os.Getenv("P9_INLINE_WEIGHT"); v != "" {
+		n, _ := strconv.Atoi(v)
+		return n
+	}
+	return 60
+}()
+
+// weight counts the statements of a function body.
+func (db *SiteDB) weight(fi *FuncInfo) int {
+	if w, ok := db.weights[fi]; ok {
+		return w
+	}
+	n := 0
+	ast.Inspect(fi.Decl.Body, func(m ast.Node) bool {
+		if st, ok := m.(ast.Stmt); ok {
+			if _, isBlock := st.(*ast.BlockStmt); !isBlock {
+				n++
+			}
+		}
+		return true
+	})
+	if db.weights == nil {
+		db.weights = map[*FuncInfo]int{}
+	}
+	db.weights[fi] = n
+	return n
+}
+
+// noteAtom records which variables an atom speaks about (several functions may produce the
+// same atom text over their own variables: the sets are united).
+func (db *SiteDB) noteAtom(key string, objs []types.Object) {
+	have := db.atomObjs[key]
+outer:
+	for _, o := range objs {
+		for _, h := range have {
+			if h == o {
+				continue outer
+			}
+		}
+		have = append(have, o)
+	}
+	db.atomObjs[key] = have
+}
 
 // translateLocks maps the locks held at a call site into the callee's frame:
 // instance expressions that mention the receiver or an argument are rewritten in
@@ -663,8 +960,46 @@ func (db *SiteDB) analyse(fi *FuncInfo) {
 		resCache[fi.Decl] = r
 		return r
 	}
-	res := resFor(fi.Decl)
-	a := &Analysis[*HState]{L: l, Info: info, Join: hJoin, Equal: hEqual, Copy: hCopy, Wrappers: db.Wrappers}
+	rootRes := resFor(fi.Decl)
+	baseRes := map[*ast.FuncDecl]*resolver{}
+	type instKey struct {
+		call   *ast.CallExpr
+		parent *resolver
+	}
+	insts := map[instKey]*resolver{}
+	var resOf func(fc *FlowCtx[*HState]) *resolver
+	resOf = func(fc *FlowCtx[*HState]) *resolver {
+		for c := fc; c != nil; c = c.Parent {
+			if c.Inl == nil {
+				continue
+			}
+			p := resOf(c.Parent)
+			k := instKey{c.Call, p}
+			if r, ok := insts[k]; ok {
+				return r
+			}
+			b := baseRes[c.Inl]
+			if b == nil {
+				b = newResolver(l, info, c.Inl)
+				baseRes[c.Inl] = b
+			}
+			r := p.instantiate(c.Call, c.Inl, b)
+			insts[k] = r
+			return r
+		}
+		return rootRes
+	}
+	inlChain := func(fc *FlowCtx[*HState]) []*InlFrame {
+		var out []*InlFrame
+		for c := fc; c != nil; c = c.Parent {
+			if c.Inl != nil {
+				out = append([]*InlFrame{{Call: c.Call, Decl: c.Inl}}, out...)
+			}
+		}
+		return out
+	}
+	a := &Analysis[*HState]{L: l, Info: info, Join: hJoin, Equal: hEqual, Copy: hCopy, Key: hKey, Wrappers: db.Wrappers}
+	a.Inline = inlinePolicy[*HState](db, fi)
 	inlined := map[*ast.FuncLit]bool{}
 	ctxChain := func(fc *FlowCtx[*HState]) []string {
 		var out []string
@@ -675,17 +1010,18 @@ func (db *SiteDB) analyse(fi *FuncInfo) {
 		}
 		return out
 	}
+	var res *resolver // resolver of the context whose node is being processed (set by every callback)
 	killObj := func(s *HState, obj types.Object) {
 		if obj == nil {
 			return
 		}
+		// Atoms are rendered through the resolver of the current context, so a fact speaks
+		// about the variable exactly when its text mentions the variable's rendered name.
+		name := res.nameOf(obj)
 		for _, p := range s.Paths {
 			for k := range p {
-				for _, o := range db.atomObjs[k] {
-					if o == obj {
-						delete(p, k)
-						break
-					}
+				if mentionsIdent(k, name) {
+					delete(p, k)
 				}
 			}
 		}
@@ -695,7 +1031,7 @@ func (db *SiteDB) analyse(fi *FuncInfo) {
 		for _, set := range []map[string]bool{s.Locks, s.MayL} {
 			for t := range set {
 				class, mode, inst := parseLockToken(t)
-				if !strings.HasSuffix(inst, "#stale") && mentionsIdent(inst, obj.Name()) {
+				if !strings.HasSuffix(inst, "#stale") && mentionsIdent(inst, res.nameOf(obj)) {
 					delete(set, t)
 					set[class+":"+mode+"@"+inst+"#stale"] = true
 				}
@@ -706,6 +1042,7 @@ func (db *SiteDB) analyse(fi *FuncInfo) {
 		if s.Dead {
 			return s
 		}
+		res = resOf(fc)
 		// Lock operations and events, in source order within the node (literals excluded).
 		deferred := false
 		switch v := n.(type) {
@@ -850,9 +1187,7 @@ func (db *SiteDB) analyse(fi *FuncInfo) {
 			return append(first, second...)
 		}
 		key, pol := atomOf(res, info, l.parent, cond)
-		if _, ok := db.atomObjs[key]; !ok {
-			db.atomObjs[key] = objsIn(info, cond)
-		}
+		db.noteAtom(key, res.objsOf(cond))
 		want := pol == branch
 		var kept []FactSet
 		for _, p := range paths {
@@ -868,6 +1203,7 @@ func (db *SiteDB) analyse(fi *FuncInfo) {
 		if s.Dead {
 			return s
 		}
+		res = resOf(fc)
 		kept := applyCond(s.Paths, cond, branch)
 		// de-duplicate
 		seen := map[string]bool{}
@@ -889,10 +1225,7 @@ func (db *SiteDB) analyse(fi *FuncInfo) {
 		}
 		return s
 	}
-	a.WrapEnter = func(s *HState, call *ast.CallExpr, w *Wrapper, fc *FlowCtx[*HState]) *HState {
-		if lit, ok := unparen(call.Args[w.ParamIdx]).(*ast.FuncLit); ok {
-			inlined[lit] = true
-		}
+	addWrapperLocks := func(s *HState, call *ast.CallExpr, w *Wrapper) {
 		recv := ""
 		if sel, ok := unparen(call.Fun).(*ast.SelectorExpr); ok {
 			recv = res.str(sel.X)
@@ -914,18 +1247,32 @@ func (db *SiteDB) analyse(fi *FuncInfo) {
 				s.Locks[lockToken(wl.Class, "R", inst)] = true
 			}
 		}
+	}
+	a.WrapEnter = func(s *HState, call *ast.CallExpr, w *Wrapper, fc *FlowCtx[*HState]) *HState {
+		res = resOf(fc)
+		if lit, ok := unparen(call.Args[w.ParamIdx]).(*ast.FuncLit); ok {
+			inlined[lit] = true
+		}
+		addWrapperLocks(s, call, w)
 		s.Must["enter:"+w.Key] = true
 		s.May["enter:"+w.Key] = true
 		// Deferred unlocks registered by the caller do not run when the literal returns.
+		var ks []string
 		for k := range s.Must {
 			if strings.HasPrefix(k, "deferunlock:") || strings.HasPrefix(k, "outer|") {
-				delete(s.Must, k)
-				s.Must["outer|"+k] = true
+				ks = append(ks, k)
 			}
+		}
+		for _, k := range ks {
+			delete(s.Must, k)
+		}
+		for _, k := range ks {
+			s.Must["outer|"+k] = true
 		}
 		return s
 	}
 	a.WrapExit = func(s *HState, call *ast.CallExpr, w *Wrapper, fc *FlowCtx[*HState]) *HState {
+		res = resOf(fc)
 		// Unlocks deferred inside the literal run when it returns.
 		for k := range s.Must {
 			if strings.HasPrefix(k, "deferunlock:") {
@@ -937,11 +1284,17 @@ func (db *SiteDB) analyse(fi *FuncInfo) {
 				delete(s.Must, k)
 			}
 		}
+		var outer []string
 		for k := range s.Must {
 			if strings.HasPrefix(k, "outer|") {
-				delete(s.Must, k)
-				s.Must[strings.TrimPrefix(k, "outer|")] = true
+				outer = append(outer, k)
 			}
+		}
+		for _, k := range outer {
+			delete(s.Must, k)
+		}
+		for _, k := range outer {
+			s.Must[strings.TrimPrefix(k, "outer|")] = true // exactly one level
 		}
 		recv := ""
 		if sel, ok := unparen(call.Fun).(*ast.SelectorExpr); ok {
@@ -969,10 +1322,152 @@ func (db *SiteDB) analyse(fi *FuncInfo) {
 		}
 		return s
 	}
+	// Path facts established inside a callee survive into the caller only while they stay
+	// cheap: when the call multiplies the paths beyond the budget, the atoms the callee added
+	// are forgotten again (the caller then knows what it knew before the call).
+	entryAtoms := map[*FlowCtx[*HState]]map[string]bool{}
+	entryPaths := map[*FlowCtx[*HState]]int{}
+	a.InlDone = func(s *HState, call *ast.CallExpr, sub, fc *FlowCtx[*HState]) *HState {
+		if s.Dead {
+			return s
+		}
+		budget := 2 * entryPaths[sub]
+		if budget < inlinePathBudget {
+			budget = inlinePathBudget
+		}
+		returnsErr := false
+		if rl := sub.Inl.Type.Results; rl != nil && len(rl.List) > 0 {
+			if t := info.TypeOf(rl.List[len(rl.List)-1].Type); t != nil && t.String() == "error" {
+				returnsErr = true
+			}
+		}
+		// Only a callee whose error result the caller can test correlates its internal
+		// decisions with something visible in the caller.
+		if returnsErr && len(s.Paths) <= budget {
+			return s
+		}
+		known := entryAtoms[sub]
+		seen := map[string]bool{}
+		var kept []FactSet
+		for _, p := range s.Paths {
+			for k := range p {
+				if !known[k] {
+					delete(p, k)
+				}
+			}
+			if key := p.key(); !seen[key] {
+				seen[key] = true
+				kept = append(kept, p)
+			}
+		}
+		sort.Slice(kept, func(i, j int) bool { return kept[i].key() < kept[j].key() })
+		s.Paths = kept
+		return s
+	}
+	a.InlEnter = func(s *HState, call *ast.CallExpr, sub, fc *FlowCtx[*HState]) *HState {
+		if s.Dead {
+			return s
+		}
+		atoms := map[string]bool{}
+		for _, p := range s.Paths {
+			for k := range p {
+				atoms[k] = true
+			}
+		}
+		entryAtoms[sub] = atoms
+		entryPaths[sub] = len(s.Paths)
+		// Deferred calls registered by the caller do not run when the callee returns.
+		for _, set := range []map[string]bool{s.Must, s.May} {
+			var ks []string
+			for k := range set {
+				if strings.HasPrefix(k, "deferunlock:") || strings.HasPrefix(k, "defer:") || strings.HasPrefix(k, "outer|") {
+					ks = append(ks, k)
+				}
+			}
+			for _, k := range ks {
+				delete(set, k)
+			}
+			for _, k := range ks {
+				set["outer|"+k] = true
+			}
+		}
+		return s
+	}
+	a.InlExit = func(s *HState, call *ast.CallExpr, sub, fc *FlowCtx[*HState]) *HState {
+		if s.Dead {
+			return s
+		}
+		cres := resOf(sub)
+		// The callee's deferred calls have run by the time it returns.
+		for k := range s.Must {
+			if strings.HasPrefix(k, "deferunlock:") {
+				t := strings.TrimPrefix(k, "deferunlock:")
+				for _, set := range []map[string]bool{s.Locks, s.MayL} {
+					delete(set, t)
+					delete(set, t+"#stale")
+				}
+				delete(s.Must, k)
+			}
+		}
+		for _, set := range []map[string]bool{s.Must, s.May} {
+			var own, outer []string
+			for k := range set {
+				if strings.HasPrefix(k, "defer:") {
+					own = append(own, k)
+				} else if strings.HasPrefix(k, "outer|") {
+					outer = append(outer, k)
+				}
+			}
+			for _, k := range own {
+				delete(set, k)
+				set[strings.TrimPrefix(k, "defer:")] = true
+			}
+			for _, k := range outer {
+				delete(set, k)
+			}
+			for _, k := range outer {
+				set[strings.TrimPrefix(k, "outer|")] = true // exactly one level
+			}
+		}
+		// Facts, definitions and lock instances that speak about the callee's own variables
+		// mean nothing in the caller.
+		var kept []FactSet
+		seen := map[string]bool{}
+		mark := "~" + cres.frame
+		for _, p := range s.Paths {
+			for k := range p {
+				if mentionsFrame(k, mark) {
+					delete(p, k) // the callee's locals are always rendered with its frame mark
+				}
+			}
+			if key := p.key(); !seen[key] {
+				seen[key] = true
+				kept = append(kept, p)
+			}
+		}
+		sort.Slice(kept, func(i, j int) bool { return kept[i].key() < kept[j].key() })
+		s.Paths = kept
+		for o := range s.Defs {
+			if cres.local(o) {
+				delete(s.Defs, o)
+			}
+		}
+		for _, set := range []map[string]bool{s.Locks, s.MayL} {
+			for t := range set {
+				if mentionsFrame(t, mark) && !strings.HasSuffix(t, "#stale") {
+					delete(set, t)
+					set[t+"#stale"] = true
+				}
+			}
+		}
+		return s
+	}
 	litState := map[*ast.FuncLit]*HState{}
 	a.Visit = func(s *HState, n ast.Node, fc *FlowCtx[*HState]) {
+		res = resOf(fc)
 		snap := hCopy(s)
 		chain := ctxChain(fc)
+		inl := inlChain(fc)
 		// state at the creation of function literals contained in this node
 		ast.Inspect(n, func(m ast.Node) bool {
 			if lit, ok := m.(*ast.FuncLit); ok {
@@ -985,13 +1480,58 @@ func (db *SiteDB) analyse(fi *FuncInfo) {
 			}
 			return true
 		})
+		if len(inl) > 0 {
+			// Inside a callee analysed in place: the callee's own analysis records its sites;
+			// here they are kept apart, for the rules that follow an operation into helpers.
+			inspectNoLit(n, func(m ast.Node) {
+				switch v := m.(type) {
+				case *ast.CallExpr:
+					db.Deep[fi] = append(db.Deep[fi], &Site{Node: n, Call: v, Callee: calleeKey(info, v), Fn: fc.Fn, Root: fi, St: snap, Ctx: chain, Inl: inl, Res: res})
+				case *ast.SelectorExpr:
+					if fld := fieldOf(info, v); fld != nil {
+						db.DeepFields = append(db.DeepFields, &FieldAccess{Sel: v, Field: fld, Key: l.fieldKey(fld), Write: isWriteTarget(l, v), Root: fi, Inl: inl, Fn: fc.Fn, St: snap})
+					}
+				}
+			})
+			return
+		}
+		// a channel operation that is the communication of a select with a default clause never waits
+		nonBlocking := func(m ast.Node) bool {
+			for p := l.parent(m); p != nil; p = l.parent(p) {
+				switch v := p.(type) {
+				case *ast.CommClause:
+					if v.Comm == nil || !containsNode(v.Comm, m) {
+						return false
+					}
+					if blk, ok := l.parent(v).(*ast.BlockStmt); ok {
+						for _, c := range blk.List {
+							if cc, ok := c.(*ast.CommClause); ok && cc.Comm == nil {
+								return true
+							}
+						}
+					}
+					return false
+				case *ast.FuncLit, *ast.FuncDecl:
+					return false
+				}
+			}
+			return false
+		}
+		selectHasDefault := func(v *ast.SelectStmt) bool {
+			for _, c := range v.Body.List {
+				if cc, ok := c.(*ast.CommClause); ok && cc.Comm == nil {
+					return true
+				}
+			}
+			return false
+		}
 		switch v := n.(type) {
 		case *ast.GoStmt:
 			db.Blocking = append(db.Blocking, &Site{Node: v, Callee: "go", Fn: fc.Fn, Root: fi, St: snap, Ctx: chain})
 		case *ast.SelectStmt:
-			db.Blocking = append(db.Blocking, &Site{Node: v, Callee: "select", Fn: fc.Fn, Root: fi, St: snap, Ctx: chain})
+			db.Blocking = append(db.Blocking, &Site{Node: v, Callee: "select", Fn: fc.Fn, Root: fi, St: snap, Ctx: chain, NonBlocking: selectHasDefault(v)})
 		case *ast.SendStmt:
-			db.Blocking = append(db.Blocking, &Site{Node: v, Callee: "chan<-", Fn: fc.Fn, Root: fi, St: snap, Ctx: chain})
+			db.Blocking = append(db.Blocking, &Site{Node: v, Callee: "chan<-", Fn: fc.Fn, Root: fi, St: snap, Ctx: chain, NonBlocking: nonBlocking(v)})
 		}
 		inspectNoLit(n, func(m ast.Node) {
 			switch v := m.(type) {
@@ -1003,13 +1543,24 @@ func (db *SiteDB) analyse(fi *FuncInfo) {
 				}
 			case *ast.UnaryExpr:
 				if v.Op == token.ARROW {
-					db.Blocking = append(db.Blocking, &Site{Node: v, Callee: "<-chan", Fn: fc.Fn, Root: fi, St: snap, Ctx: chain})
+					db.Blocking = append(db.Blocking, &Site{Node: v, Callee: "<-chan", Fn: fc.Fn, Root: fi, St: snap, Ctx: chain, NonBlocking: nonBlocking(v)})
 				}
 			case *ast.CallExpr:
 				key := calleeKey(info, v)
-				site := &Site{Node: n, Call: v, Callee: key, Fn: fc.Fn, Root: fi, St: snap, Ctx: chain}
+				site := &Site{Node: n, Call: v, Callee: key, Fn: fc.Fn, Root: fi, St: snap, Ctx: chain, Res: res}
 				db.Calls[key] = append(db.Calls[key], site)
 				db.ByFunc[fi] = append(db.ByFunc[fi], site)
+				if w := db.Wrappers[callee(info, v)]; w != nil && w.ParamIdx < len(v.Args) {
+					cb := unparen(v.Args[w.ParamIdx])
+					if _, isLit := cb.(*ast.FuncLit); !isLit {
+						syn := &ast.CallExpr{Fun: cb, Lparen: cb.End(), Rparen: cb.End()}
+						if tf := l.FuncOf(callee(info, syn)); tf != nil {
+							inside := hCopy(snap)
+							addWrapperLocks(inside, v, w)
+							db.Virtual[fi] = append(db.Virtual[fi], &Site{Node: n, Call: syn, Callee: tf.Key, Fn: fc.Fn, Root: fi, St: inside, Ctx: chain, Res: res, Virtual: true})
+						}
+					}
+				}
 				if op, mode := mutexOp(key); op == "lock" {
 					if sel, ok := unparen(v.Fun).(*ast.SelectorExpr); ok {
 						class := db.L.fieldKey(fieldOf(info, sel.X))
@@ -1031,6 +1582,11 @@ func (db *SiteDB) analyse(fi *FuncInfo) {
 		})
 	}
 	a.Exit = func(s *HState, ret *ast.ReturnStmt, fc *FlowCtx[*HState]) {
+		if inl := inlChain(fc); len(inl) > 0 {
+			// exit of a callee analysed in place, not of fi
+			db.DeepExits[fi] = append(db.DeepExits[fi], &ExitRec{Ret: ret, Fn: fc.Fn, St: hCopy(s), Inl: inl})
+			return
+		}
 		db.Exits[fi] = append(db.Exits[fi], &ExitRec{Ret: ret, Fn: fc.Fn, St: hCopy(s)})
 	}
 	init := newHState()
@@ -1263,13 +1819,24 @@ func (db *SiteDB) siteName(s *Site) string {
 	return fmt.Sprintf("%s → %s", s.Root.Key, s.Callee)
 }
 
+// mentionsFrame reports whether a rendered expression mentions a local of the inlined frame
+// (mark = "~name"): the mark must end the identifier.
+func mentionsFrame(expr, mark string) bool {
+	for i := 0; i+len(mark) <= len(expr); i++ {
+		if expr[i:i+len(mark)] == mark && (i+len(mark) == len(expr) || !isIdentChar(expr[i+len(mark)])) {
+			return true
+		}
+	}
+	return false
+}
+
 // mentionsIdent reports whether the identifier name occurs in expr as a whole word.
 func mentionsIdent(expr, name string) bool {
 	for i := 0; i+len(name) <= len(expr); i++ {
 		if expr[i:i+len(name)] != name {
 			continue
 		}
-		before := i == 0 || !isIdentChar(expr[i-1])
+		before := i == 0 || !isIdentChar(expr[i-1]) && expr[i-1] != '.' // x.name is a field, not the variable
 		after := i+len(name) == len(expr) || !isIdentChar(expr[i+len(name)])
 		if before && after {
 			return true
@@ -1279,7 +1846,7 @@ func mentionsIdent(expr, name string) bool {
 }
 
 func isIdentChar(c byte) bool {
-	return c == '_' || c >= '0' && c <= '9' || c >= 'a' && c <= 'z' || c >= 'A' && c <= 'Z'
+	return c == '_' || c == '~' || c == '#' || c >= '0' && c <= '9' || c >= 'a' && c <= 'z' || c >= 'A' && c <= 'Z'
 }
 
 func clonePaths(in []FactSet) []FactSet {
